@@ -75,6 +75,16 @@ Seal(rk, iv, aad, p, t) ==
       j0 == J0(H, iv)
       c == GCtr(rk, Inc(j0), p)
   IN c \o Tag(rk, H, j0, aad, c, t)
+\* Seal for an additional data string of nz ZERO symbols, without materialising it: GHASH starts from the zero block
+\* and a zero block leaves it there (Y' = (Y + 0) * H = 0 * H = 0), so the aad contributes only its length.
+\* (MC_GcmToy checks SealZeroAad = Seal on all-zero aad at toy size; used for lengths at and beyond 2^29 bytes,
+\* where the bit length no longer fits 32 bits, which no materialised string could reach in TLC.)
+SealZeroAad(rk, iv, nz, p, t) ==
+  LET H == HashKey(rk)
+      j0 == J0(H, iv)
+      c == GCtr(rk, Inc(j0), p)
+      s == GHash(H, PadToBlock(c) \o LenBlock(nz, Len(c)))
+  IN c \o SubSeq(XorS(s, EK(rk, j0)), 1, t)
 \* what counter-mode decryption of the body yields whether or not the tag matches (the bytes an
 \* implementation that decrypts before it has verified would have produced)
 Decrypted(rk, iv, ct, t) ==
